@@ -86,7 +86,7 @@ class PointLocal(FragmentTask):
             items = [as_ndarray(pl).elem((d,)) for d in range(3)]
         except Exception:
             items = None
-        ctx.oblige("post.point_local-is-a-3-vector", items is not None, "P")
+        ctx.structure("post.point_local-is-a-3-vector", items is not None)
         if items is None:
             return
         for d in range(3):
@@ -165,7 +165,7 @@ class PointMatch(FragmentTask):
             ctx.oblige(f"post.{k}-is-the-fine-level", veq(ctx, v.get(k), 1), "P", note=str(v.get(k)))
         inner = v.get("box_matches_inner", {}).get(1)
         ok = inner is not None
-        ctx.oblige("post.inner-matches-of-the-fine-level-recorded", ok, "P")
+        ctx.structure("post.inner-matches-of-the-fine-level-recorded", ok)
         if ok:
             from pyvc.ops import as_ndarray
             a = as_ndarray(inner)
